@@ -140,7 +140,7 @@ let read_only = function Fetch _ | Exists _ | Resolve _ | Preds _ | Tags -> true
    one atomic step: everything but Predecessors on the memory store, Push on the file
    store; reads of monotone or atomically updated maps -- Fetch/Exists/Resolve on the file store,
    Exists/Fetch/Resolve-by-name on the OCI store: the theorems C06_reads_linearisable_memory, _oci, _file).  Unconstrained read-only operations are dropped from the search. *)
-let serialisable (type s) ?(constrained : op -> bool = fun _ -> false)
+let serialisable (type s) ?(constrained : op -> bool = fun _ -> false) ?(fin : s -> bool = fun _ -> true)
     (step : s -> op -> s * string) (init : s) (repr : s -> string)
     (evs : ev array) (probe : ev list) : bool =
   let evs = Array.of_list (List.filter (fun e -> constrained e.o || not (read_only e.o)) (Array.to_list evs)) in
@@ -149,7 +149,7 @@ let serialisable (type s) ?(constrained : op -> bool = fun _ -> false)
   let seen = Hashtbl.create 1024 in
   let leaf (st : s) =
     let rec chk st = function
-      | [] -> true
+      | [] -> fin st
       | e :: tl -> let (st', shown) = step st e.o in shown = e.obs && chk st' tl in
     chk st probe in
   let rec go (st : s) (k : int) : bool =
@@ -207,12 +207,21 @@ let () =
        with Failure m -> Printf.printf "%s BADCASE %s\n" id m)
     | id :: "lin" :: store :: nprobe :: toks ->
       (try
+         (* a final token K=<files> is the observed on-disk state at quiescence: the sequential
+            order must end with exactly these files *)
+         let (toks, disk_obs) = (match List.rev toks with
+           | last :: rest when String.length last >= 2 && String.sub last 0 2 = "K=" ->
+             (List.rev rest, Some (String.sub last 2 (String.length last - 2)))
+           | _ -> (toks, None)) in
+         let disk_ok shown = (match disk_obs with None -> true | Some o -> shown = "K:" ^ o) in
          let all = List.map parse_ev toks in
          let (conc, probe) = split_at (List.length all - int_of_string nprobe) all in
          let evs = Array.of_list conc in
          let ok =
            if is_file store then
-             serialisable ~constrained:(function Push _ | Fetch _ | Exists _ | Resolve _ -> true | _ -> false) (fun s o -> let (s', x) = file_stepper store s o in (s', show_fout x)) file_init
+             serialisable ~constrained:(function Push _ | Fetch _ | Exists _ | Resolve _ -> true | _ -> false)
+               ~fin:(fun s -> disk_ok (show_disk (List.map (fun (p, c) -> Printf.sprintf "%d=%d,%d" (ii p) (ii c.b_hash) (ii c.b_len)) s.f_disk)))
+               (fun s o -> let (s', x) = file_stepper store s o in (s', show_fout x)) file_init
                (fun s -> String.concat "," (List.map (fun n -> string_of_int (ii n)) (List.sort compare s.f_names)) ^ "#" ^
                          String.concat "," (List.sort compare (List.map (fun (g, p) -> Printf.sprintf "%d>%d" (ii g) (ii p)) s.f_d2p)) ^ "#" ^
                          show_content_mem s.f_cas ^ "#" ^ show_tags s.f_res.r_index ^ "#" ^ show_graph s.f_graph ^ "#" ^
@@ -228,6 +237,7 @@ let () =
              (* content-map reads are atomic (stat/open of a blob file that appears by rename and
                 disappears only under the exclusive lock): C06_reads_linearisable_oci *)
              serialisable ~constrained:(function Exists _ | Fetch _ | Resolve (RName _) -> true | _ -> false)
+               ~fin:(fun s -> disk_ok (show_disk (List.map (fun (g, c) -> Printf.sprintf "%d=%d,%d" (ii g) (ii c.b_hash) (ii c.b_len)) s.o_blobs)))
                (fun s o -> let (s', x) = oci_step s o in (s', show_out x)) oci_init
                (fun s -> let a = oci_abs s in show_content_oci a.sp_content ^ "#" ^ show_tags a.sp_tags ^ "#" ^ show_graph s.o_graph) evs probe
            | _ -> failwith "store" in
